@@ -61,6 +61,10 @@ type ProcOpts struct {
 	Stdin   []byte
 	Timeout time.Duration // watchdog (default 60 s)
 	Prefix  []string      // e.g. strace … or setpriv …
+	// HeadStdout: the child's standard output is a pipe whose reader takes HeadBytes bytes and goes away (`csvq … | head`):
+	// the next write of the child meets a broken pipe (SIGPIPE / EPIPE)
+	HeadStdout bool
+	HeadBytes  int
 }
 
 var homeDir string
@@ -101,10 +105,47 @@ func RunProc(o ProcOpts) ProcResult {
 	var so, se bytes.Buffer
 	cmd.Stdout = &so
 	cmd.Stderr = &se
+	var headDone chan struct{}
+	var headPW *os.File
+	if o.HeadStdout {
+		pr, pw, perr := os.Pipe()
+		if perr == nil {
+			cmd.Stdout = pw
+			headDone = make(chan struct{})
+			go func() {
+				defer close(headDone)
+				buf := make([]byte, 4096)
+				left := o.HeadBytes
+				for left > 0 {
+					n := len(buf)
+					if n > left {
+						n = left
+					}
+					k, rerr := pr.Read(buf[:n])
+					so.Write(buf[:k])
+					left -= k
+					if rerr != nil {
+						break
+					}
+				}
+				_ = pr.Close()
+			}()
+			headPW = pw
+		}
+	}
 	cmd.SysProcAttr = &syscall.SysProcAttr{Setpgid: true}
 	cmd.Cancel = func() error { return syscall.Kill(-cmd.Process.Pid, syscall.SIGKILL) }
 	t0 := time.Now()
-	err := cmd.Run()
+	err := cmd.Start()
+	if headPW != nil {
+		_ = headPW.Close() // the child holds the only write end now
+	}
+	if err == nil {
+		err = cmd.Wait()
+	}
+	if headDone != nil {
+		<-headDone
+	}
 	res := ProcResult{Stdout: so.String(), Stderr: se.String(), Wall: time.Since(t0)}
 	if ctx.Err() == context.DeadlineExceeded {
 		res.TimedOut = true
